@@ -14,3 +14,151 @@ META = {
     'assumptions': ['CST level only: the call/prefix re-association in ast::lower (apply_trailing_args) is a separate obligation', 'literal spellings: see E1 obligations'],
     'trusted_base': ['mirsym MIR interpreter', 'std/rowan models', 'z3', 'reference climber (40 lines)'],
 }
+
+# ----------------------------------------------------------------------------- O11.3 string literal fidelity: lexer-accepted text -> ast value -> Go literal
+import z3, json, os, subprocess, tempfile, shutil
+from vlib import e2, build
+from vlib.core import Ob, Finding
+import mirsym as ms
+from mirsym.engine import Agg, PyVec, Str, Ref, Opaque, Unsupported, Panic, mkstr, unbox
+
+LCRATES = ('ast', 'cst', 'parser', 'lexer', 'diagnostics', 'common_defs', 'compiler')
+ESC = {'"': 34, '\\': 92, 'b': 8, 'n': 10, 'f': 12, 'r': 13, 't': 9, '/': 47}      # the escapes of the lexer's Str regex and what they denote (JSON)
+UNI = ['0041', '00e9', '2192', '0001']
+
+def go_decode(ex, chars):
+    """reference decoder of the *content* of a Go interpreted string literal -> code points, or None if it is not a legal literal"""
+    def pin(c):
+        # a symbolic character whose value is determined by the path condition is read as that value
+        if not ms.is_sym(c): return c
+        c2 = z3.simplify(c)
+        if z3.is_int_value(c2): return c2.as_long()
+        ex.solver.push()
+        try:
+            if ex.solver.check() != z3.sat: return c
+            v = ex.solver.model().eval(c, True).as_long()
+        finally: ex.solver.pop()
+        return v if not ex.feasible(c != v) else c
+    chars = [pin(c) for c in chars]
+    out = []; i = 0; n = len(chars)
+    def is_(c, v):
+        if not ms.is_sym(c): return c == v
+        return not ex.feasible(c != v)
+    def may(c, v): return (c == v) if not ms.is_sym(c) else ex.feasible(c == v)
+    while i < n:
+        c = chars[i]
+        if may(c, 34) or may(c, 10) or may(c, 0): return None      # raw quote / newline inside the literal; a raw NUL is rejected by the Go compiler
+        if may(c, 92):
+            if ms.is_sym(c) and not is_(c, 92): return None        # could be a backslash or not: ambiguous => not a faithful rendering
+            if i + 1 >= n or ms.is_sym(chars[i + 1]): return None
+            e = chr(chars[i + 1]); tab = {'a': 7, 'b': 8, 'f': 12, 'n': 10, 'r': 13, 't': 9, 'v': 11, '\\': 92, '"': 34}
+            if e in tab: out.append(tab[e]); i += 2; continue
+            if e in 'xuU':
+                k = {'x': 2, 'u': 4, 'U': 8}[e]; hx = chars[i + 2:i + 2 + k]
+                if len(hx) < k or any(ms.is_sym(h) for h in hx): return None
+                try: out.append(int(''.join(map(chr, hx)), 16))
+                except ValueError: return None
+                i += 2 + k; continue
+            return None
+        out.append(c); i += 1
+    return out
+
+def ob_string_literal(r, tier, seed, items):
+    W = e2.fresh_world(LCRATES)
+    EX = W.tt.find_adt(['cst', 'nodes', 'Expr'], 'cst') if W.tt.by_name.get('Expr') else None
+    cands = [a for a in W.tt.by_name.get('Expr', []) if a.crate == 'cst']
+    if len(cands) != 1: raise Unsupported('cst::Expr not found')
+    CEX = cands[0]; SE = [a for a in W.tt.by_name.get('StrExpr', []) if a.crate == 'cst'][0]
+    AEX = W.tt.find_adt(['ast', 'ast', 'Expr'], 'ast')
+    r.bounds = 'string tokens "<i1>..<i%d>" where each item is lazily a plain character (any Unicode scalar except \\" \\\\ and controls), one of the escapes \\\\" \\\\\\\\ \\\\b \\\\n \\\\f \\\\r \\\\t \\\\/ or \\\\uXXXX with XXXX in %s' % (items, UNI)
+    r.assumptions = ['the token text is one the lexer accepts (its Str regex)', 'cst::StrExpr::value / SyntaxToken text access are stubbed by the symbolic token text; MySyntaxNodePtr opaque',
+                     'oracle: the escapes denote what they denote in the grammar the regex was taken from (JSON); the emitted Go literal, read by a reference decoder of Go interpreted string literals, must give exactly those characters']
+    def token_stub(ex, a): return ms.some(Opaque('token', text=cur['text']))
+    cur = {}
+    for nm in list(W.methods.get('value', [])):
+        if 'nodes.rs' in nm[1] and nm[2] is not None and nm[2].self_key == 'StrExpr': W.stubs[nm[1]] = token_stub
+    def ov(f, g):
+        if g.endswith('SyntaxToken<MyLang> as ToString>::to_string') or g.endswith('SyntaxToken<parser::syntax::MyLang> as ToString>::to_string') or ('SyntaxToken' in g and g.endswith('::to_string')):
+            def m_token_to_string(ex, f_, a): return Str(ex.deref(a[0]).text.chars)
+            return m_token_to_string
+        if g.endswith(' as CstNode>::syntax'):
+            def m_cst_syntax(ex, f_, a):
+                n = ex.deref(a[0])
+                while isinstance(n, Agg) and n.fields and isinstance(n.fields[0], Agg): n = n.fields[0]      # Expr::StrExpr(StrExpr { syntax })
+                return Ref(n.fields, 0)
+            return m_cst_syntax
+        if 'SyntaxNodePtr' in g and g.endswith('::new'):
+            def m_nodeptr_new(ex, f_, a): return Opaque('astptr')
+            return m_nodeptr_new
+        if g.endswith('::text_range'):
+            def m_text_range(ex, f_, a): return Agg('TextRange', 0, [0, 1])
+            return m_text_range
+        return None
+    W.overrides = [ov]
+    def entry(ex):
+        chars = [34]; want = []; desc = []
+        for i in range(items):
+            k = ex.choose([(True, 'plain')] + [(True, 'esc' + e) for e in ESC] + [(True, 'u' + u) for u in UNI])
+            if k == 'plain':
+                c = ex.fresh_int('c%d' % i); ex.assume(z3.And(c >= 32, c <= 0x10FFFF, z3.Or(c < 0xD800, c > 0xDFFF), c != 34, c != 92))
+                chars.append(c); want.append(c); desc.append('<char>')
+            elif k.startswith('esc'):
+                chars += [92, ord(k[3])]; want.append(ESC[k[3]]); desc.append('\\' + k[3])
+            else:
+                chars += [92, 117] + [ord(h) for h in k[1:]]; want.append(int(k[1:], 16)); desc.append('\\u' + k[1:])
+        chars.append(34)
+        cur['text'] = Str(chars)
+        node = Agg(CEX.key, CEX.vindex('StrExpr'), [Agg(SE.key, 0, [Opaque('syntaxnode')])])
+        LC = [a for a in W.tt.by_name.get('LowerCtx', []) if a.crate == 'ast'][0]
+        DI = W.tt.find_adt(['diagnostics', 'Diagnostics'], 'diagnostics')
+        ctxv = Agg(LC.key, 0, [Agg(DI.key, 0, [PyVec([])]) if (f[1] and 'resolved_path' in f[1] and f[1]['resolved_path']['path'].endswith('Diagnostics')) else Opaque('ctx.' + str(f[0])) for f in LC.variants[0].fields])
+        h = {0: ctxv}
+        res = ex.call('lower::lower_expr_with_args', [Ref(h, 0), node, PyVec([])], 'ast')
+        if res.idx == 0: return desc, 'rejected', None, want
+        e = res.fields[0]
+        if AEX.variants[e.idx].name != 'EString': return desc, 'not-a-string', None, want
+        value = e.fields[0]
+        h2 = {0: value}
+        lit = ex.call('pprint::go_pprint::escape_go_string', [Ref(h2, 0)], 'compiler')
+        dec = go_decode(ex, lit.chars)
+        return desc, 'ok', dec, want
+    res = e2.explore(r, W, entry, [])
+    found = {}
+    for p in res:
+        r.cases += 1
+        if p.kind != 'ok': found.setdefault('panic', ('lowering / printing a string literal panics: %s' % p.value, None)); continue
+        desc, st, dec, want = p.value
+        r.nontrivial += 1
+        if st != 'ok': found.setdefault('valid-literal-rejected', ('a string token the lexer accepts is %s by lowering: items %s' % (st, desc), desc)); continue
+        bad = dec is None or len(dec) != len(want)
+        if not bad:
+            neq = [ms.zi(a) != ms.zi(b) for a, b in zip(dec, want) if not (not ms.is_sym(a) and not ms.is_sym(b) and a == b)]
+            conc = any((not ms.is_sym(a) and not ms.is_sym(b) and a != b) for a, b in zip(dec, want))
+            if conc: bad = True
+            elif neq:
+                m, dt = e2.check(p.pc + [z3.Or(*neq)]); r.queries += 1; r.solver_s += dt
+                bad = m is not None
+        if bad:
+            key = 'escape-not-decoded' if any(d.startswith('\\') for d in desc) else 'literal-changed'
+            found.setdefault(key, ('string literal "%s": the emitted Go literal denotes %s, the source denotes %s' % (''.join(d if d != '<char>' else 'x' for d in desc), dec if dec is None else [x if not ms.is_sym(x) else '?' for x in dec], [x if not ms.is_sym(x) else '?' for x in want]), desc))
+        elif len(r.samples) < 3: r.samples.append({'items': desc})
+    for key, (what, desc) in found.items():
+        ok_, detail = True, 'values read from the real lower_expr_with_args / escape_go_string MIR'
+        if key == 'escape-not-decoded':
+            src = 'fn main() -> unit { string_println("a\\\\nb") }\n'
+            d = tempfile.mkdtemp(prefix='vf-c11-')
+            try:
+                open(os.path.join(d, 'main.gom'), 'w').write(src)
+                out = subprocess.run([build.compiler_bin(), 'run', '--dump-go', os.path.join(d, 'main.gom')], capture_output=True, text=True, timeout=60).stdout
+            finally: shutil.rmtree(d, ignore_errors=True)
+            line = [l.strip() for l in out.splitlines() if 'string_println("a' in l]
+            ok_ = bool(line) and '"a\\\\\\\\nb"' in line[0]
+            detail = 'goml `string_println("a\\\\nb")` emits Go `%s` (a backslash and an n, not a newline)' % (line[0] if line else '?')
+        r.findings.append(Finding(key, what, {'items': desc}, ok_, detail))
+
+def _string_obs():
+    return [Ob('O11.3-string-literal-1', 'string literal fidelity through lowering and Go printing: 1 item', ob_string_literal, ('quick', 'thorough'), 1, dict(items=1)),
+            Ob('O11.3-string-literal-2', 'string literal fidelity: 2 items', ob_string_literal, ('quick', 'thorough'), 3, dict(items=2)),
+            Ob('O11.3-string-literal-3', 'string literal fidelity: 3 items', ob_string_literal, ('thorough',), 30, dict(items=3))]
+_old_obligations = obligations
+def obligations(): return _old_obligations() + _string_obs()
